@@ -119,6 +119,18 @@ def case_task(states):
                         want_s = m_.unsqueeze(1) + torch.exp(l_).unsqueeze(1) * z
                         if tuple(smp.shape) != tuple(want_s.shape) or not torch.allclose(smp.double(), want_s, atol=1e-9):
                             fail("sampler", "%s%s: sample(3, %d context rows) is not mean_i + std_i * z with the controlled normal stream (max diff %.3g)" % (name, shape, rows, float((smp.double() - want_s).abs().max()) if tuple(smp.shape) == tuple(want_s.shape) else -1))
+                        # the same through batched generation (sample(n, context, batch_size)): every draw,
+                        # standardised with ITS OWN row's location and scale, must be a value of the stream
+                        torch.randn = lambda *size, **kw: (torch.arange(math.prod(size[0] if len(size) == 1 and isinstance(size[0], (tuple, list)) else size), dtype=torch.float64) * 0.25 - 1.0).reshape(*(size[0] if len(size) == 1 and isinstance(size[0], (tuple, list)) else size))
+                        try:
+                            smp_b = d.sample(4, ctx, batch_size=3)
+                        finally:
+                            torch.randn = orig
+                        if tuple(smp_b.shape) == (rows, 4) + tuple(shape):
+                            zz = (smp_b.double() - m_.unsqueeze(1)) / torch.exp(l_).unsqueeze(1) * 4.0
+                            off = float((zz - torch.round(zz)).abs().max())
+                            if off > 1e-6 * (1.0 + float(zz.abs().max())):
+                                fail("sampler", "%s%s: sample(4, %d context rows, batch_size=3): a draw listed under a row is not mean_row + std_row * z for any z of the controlled stream (off by %.3g lattice units) - it was generated under another row's parameters" % (name, shape, rows, off))
                     if nel <= 2:
                         for r in range(rows if ctx is not None else 1):
                             bounds = [(float(m_[r].reshape(-1)[k]) - 12 * math.exp(float(l_[r].reshape(-1)[k])), float(m_[r].reshape(-1)[k]) + 12 * math.exp(float(l_[r].reshape(-1)[k]))) for k in range(nel)]
@@ -202,6 +214,38 @@ def case_task(states):
                             if seen[f_].shape != want[:, f_].shape or not torch.allclose(seen[f_], want[:, f_], atol=1e-5):
                                 fail("sampler", "MADEMoG(features=%d, components=%d): feature %d is sampled with component probabilities %s, the density's mixture weights are %s" % (dd, k, f_, seen[f_][0].tolist(), want[0, f_].tolist()))
                                 break
+                if k == 1:
+                    # one component: feature D is N(mu, sigma) given the others.  The density's mu and sigma
+                    # are read off its gradient / curvature in x_D; the sampler under the constant stream
+                    # z = 1 must return mu + sigma (also for narrow components and a non-default floor)
+                    from nflows.nn.nde.made import MixtureOfGaussiansMADE
+
+                    for narrow, eps_ in ((None, 1e-2), (-6.0, 1e-2), (None, 0.5)):
+                        torch.manual_seed(7 + dd)
+                        net = MixtureOfGaussiansMADE(features=dd, hidden_features=8, context_features=None, num_blocks=1, num_mixture_components=1, epsilon=eps_)
+                        if narrow is not None:
+                            with torch.no_grad():
+                                net.final_layer.bias[2::3] = narrow
+                                net.final_layer.weight[2::3] *= 0.0
+                        net.eval()
+                        orig_r = torch.randn
+                        torch.randn = lambda *size, **kw: torch.ones(*size)
+                        try:
+                            xs = net.sample(2)
+                        finally:
+                            torch.randn = orig_r
+                        xq = xs.clone().double().requires_grad_(True)
+                        import copy as _copy
+
+                        netd = _copy.deepcopy(net).double()
+                        lp = netd.log_prob(xq).sum()
+                        (g1,) = torch.autograd.grad(lp, xq, create_graph=True)
+                        g2 = torch.autograd.grad(g1[:, dd - 1].sum(), xq)[0][:, dd - 1]
+                        sig = (-1.0 / g2).sqrt()
+                        mu = xq[:, dd - 1].detach() + sig ** 2 * g1[:, dd - 1].detach()
+                        err = float((xs[:, dd - 1].double() - (mu + sig)).abs().max() / sig.min())
+                        if not err < 1e-3:
+                            fail("sampler", "MixtureOfGaussiansMADE(features=%d, 1 component, epsilon=%g%s): under the stream z = 1 the sampler returns mu + %.4g sigma of the density's component (density sigma %.4g)" % (dd, eps_, ", narrow component" if narrow else "", 1.0 + float(((xs[:, dd - 1].double() - mu - sig) / sig)[0]), float(sig[0])))
                 for r in range(max(rows, 1)):
                     c = ctxs[r : r + 1] if rows else None
                     f = (lambda q: m.log_prob(q, c.expand(q.shape[0], -1))) if rows else (lambda q: m.log_prob(q))
